@@ -59,6 +59,8 @@ impl<'a> Writer<'a> {
         timestamp: &[u8],
         map: &[u8],
     ) -> Result<Writer<'a>, WriteError> {
+        // The reader refuses headers with a negative length.
+        assert!(length >= 0, "negative demo length");
         let mut writer = Writer {
             file: Box::new(file),
             header: Header {
